@@ -1906,7 +1906,6 @@ func (c *Ctx) missReturnsError(call *ssa.Call, okIdx int, before ssa.Instruction
 	return false
 }
 
-
 // dataReaches: the value flows (through stores into locals / variadic lists, wrapping calls and phis) into an instruction satisfying pred.
 func dataReaches(v ssa.Value, pred func(ssa.Instruction) bool) bool {
 	seen := map[ssa.Value]bool{}
@@ -1961,7 +1960,6 @@ func dataReaches(v ssa.Value, pred func(ssa.Instruction) bool) bool {
 	return walk(v, 0)
 }
 
-
 // accessorOfField: the function does nothing but return (value, ok) of a comma-ok lookup in a map field of its receiver: the field's name.
 func accessorOfField(fn *ssa.Function) string {
 	rets := returnsOf(fn)
@@ -1983,7 +1981,6 @@ func accessorOfField(fn *ssa.Function) string {
 	}
 	return n
 }
-
 
 // cycleFollowsExtends: every call between the functions of the cycle passes c.Extends or the chord stored under that name.
 func (c *Ctx) cycleFollowsExtends(scc []*ssa.Function) bool {
@@ -2014,7 +2011,6 @@ func (c *Ctx) cycleFollowsExtends(scc []*ssa.Function) bool {
 	}
 	return n > 0
 }
-
 
 // ownerName: the name an inventory files a call site under: the function itself, or - for an unexported helper with
 // exactly one static caller in its package (code extracted from that caller) - the caller, transitively.
